@@ -48,15 +48,22 @@ pub const MODULES: &[ModuleSpec] = &[
     skip: &[
       // Rc/Arc::new_uninit + write_zeroes: hand-modelled (Model/ZeroGuard.v)
       "zeroed_arc", "zeroed_arc_slice", "zeroed_rc", "zeroed_rc_slice",
+      // allocator calls / byte copies / trait-dispatched BoxBytes conversions: hand-modelled (Model/Alloc.v)
+      "try_zeroed_box", "zeroed_box", "try_zeroed_vec", "zeroed_vec", "try_zeroed_slice_box", "zeroed_slice_box",
+      "pod_collect_to_vec", "box_bytes_of", "from_box_bytes", "try_from_box_bytes",
     ],
     imports: &["Internal", "Root"],
   },
+  // the default methods of `unsafe trait TransparentWrapper<Inner: ?Sized>`
+  ModuleSpec { name: "Transparent", file: "src/transparent.rs", skip: &[], imports: &[] },
 ];
 
 #[derive(Clone, Debug)]
 pub struct Generic {
   pub name: String,
   pub is_cty: bool,
+  /// `?Sized`: pointers to it may be fat; the model takes a flag `unsized_<name>`
+  pub maybe_unsized: bool,
 }
 
 #[derive(Clone, Debug)]
@@ -79,6 +86,7 @@ pub struct ItemOut {
   pub callees: Vec<String>,
 }
 
+pub fn attr_cfgs_pub(attrs: &[syn::Attribute]) -> Vec<String> { attr_cfgs(attrs) }
 fn attr_cfgs(attrs: &[syn::Attribute]) -> Vec<String> {
   let mut v = vec![];
   for a in attrs {
@@ -147,7 +155,7 @@ fn sig_of(module: &str, f: &syn::ItemFn) -> Result<FnSig, String> {
             }
           }
         }
-        generics.push(Generic { name: tp.ident.to_string(), is_cty });
+        generics.push(Generic { name: tp.ident.to_string(), is_cty, maybe_unsized: false });
       }
       syn::GenericParam::Lifetime(_) => {}
       syn::GenericParam::Const(_) => return Err("const generic".into()),
@@ -259,6 +267,16 @@ fn main() {
         }
       }
       // impl-level functions that belong to the arithmetic core (BoxBytes, sealed traits)
+      if ms.name == "Transparent" {
+        match tables::translate_trait_methods(ms, file, &sigs, "TransparentWrapper") {
+          Ok(mut v) => items.append(&mut v),
+          Err(e) => {
+            if module_error.is_none() {
+              module_error = Some(e)
+            }
+          }
+        }
+      }
       if ms.name == "Alloc" {
         match tables::translate_alloc_impls(ms, file, &sigs) {
           Ok(mut v) => items.append(&mut v),
